@@ -13,12 +13,15 @@ TRUST = ("Trusted: Kani/CBMC/CaDiCaL, the MIR of Kani's pinned rustc (dev profil
          "the oracle code in hk/src. ")
 CHECKS = {
     "C01": (
-        "Bounded model checking of the compiled crate: for each instantiated alias the solver decides over ALL operand pairs "
-        "that mul equals floor(a*b/2^f) (2W-bit product oracle) and that div's overflow flag and quotient are exact "
-        "(shift/compare criterion + multiply-back, no second division). Full operand space for widths 8-32 (mul also 64); "
-        "128-bit mul on stated operand families. Bounded in the set of fractional counts instantiated and in width for division.",
-        TRUST + "Outside: 64/128-bit division (wide_div.rs), 128-bit mul outside the families, wrapped value of an overflowing "
-        "division for widths >= 16.", KANI, "DESIGN.md 4 C01"),
+        "Two solver engines over the current tree. Engine M (MIR -> SMT, cvc5/z3): mul_overflow of all ten integer types and "
+        "div_overflow of the eight narrower ones for EVERY fractional-bit count and ALL operands (value mod 2^W, exact overflow "
+        "flag, no reachable panic), with the primitive 2W-bit multiply/divide abstracted (trusted) and the 128-bit division's "
+        "Knuth-D routine abstracted. Kani/CBMC through the public API (includes the primitive): mul against a 2W-bit product, "
+        "div flag by a shift/compare criterion and quotient by multiply-back, full operand space for widths 8-32 (mul 64) at "
+        "boundary fractional counts; 128-bit mul on operand families.",
+        TRUST + "Engine M additionally trusts cvc5/z3, the nightly MIR dump and the executor vm/mir.py (validated concretely "
+        "against exact arithmetic on every run). Outside: wide_div.rs (Knuth D), wrapped value of an overflowing division for "
+        "widths >= 16 at API level.", "MIR->SMT symbolic execution (cvc5, z3) + " + KANI, "DESIGN.md 1.1b, 4 C01"),
     "C02": (
         "Bounded model checking: per alias and per policy form (one library multiplication/division per query) the solver decides "
         "over all operand pairs that checked/saturating/wrapping/overflowing (and the operator) agree with one exact result R "
@@ -27,14 +30,18 @@ CHECKS = {
     "C03": (
         "Bounded model checking: for each instantiated (type, type) pair the solver decides over every bit pattern of both operands "
         "(every float bit pattern incl. NaN/inf/subnormals) that all six operators and partial_cmp, in both operand orders, equal "
-        "the comparison of the exact rationals (sign/magnitude oracle); Eq/Ord/Hash within a type.",
-        TRUST + "Outside: layout pairs not instantiated (every unordered family pair is covered at 3 (quick) / 13 (thorough) "
-        "layout pairs), f16/bf16.", KANI, "DESIGN.md 4 C03"),
+        "the comparison of the exact rationals (sign/magnitude oracle); Eq/Ord/Hash within a type. Engine M additionally decides "
+        "the conversion kernel to_fixed_helper (bits, dir, overflow) for all values at ~1100 (quick) layout triples from the MIR.",
+        TRUST + "Engine M: cvc5/z3, MIR dump, vm/mir.py. Outside: layout pairs not instantiated (every unordered family pair is "
+        "covered at 3 (quick) / 13 (thorough) layout pairs), f16/bf16.", KANI + " + MIR->SMT (cvc5, z3) for the conversion kernel", "DESIGN.md 1.1b, 4 C03"),
     "C04": (
         "Bounded model checking: for each instantiated ordered (source, destination) pair the solver decides over every source "
         "value that to_num/from_num and the four policy forms equal floor(v*2^dst_frac) with exact overflow (sign/magnitude "
-        "256-bit oracle); From/LossyFrom at the edges of their type-level bounds are value preserving / lose only fraction bits.",
-        TRUST + "Outside: pairs not instantiated; absence of inadmissible From impls (compile-time).", KANI, "DESIGN.md 4 C04"),
+        "256-bit oracle); From/LossyFrom (fixed->fixed, int->fixed, fixed->int) at the edges of their type-level bounds are value "
+        "preserving / lose only fraction bits. Engine M additionally decides the kernel to_fixed_helper for all values at ~1100 "
+        "(quick) / ~13000 (thorough) layout triples from the MIR.",
+        TRUST + "Engine M: cvc5/z3, MIR dump, vm/mir.py. Outside: pairs not instantiated; absence of inadmissible From impls "
+        "(compile-time).", KANI + " + MIR->SMT (cvc5, z3) for the conversion kernel", "DESIGN.md 1.1b, 4 C04"),
     "C05": (
         "Bounded model checking on bit patterns (no floating-point operation is executed): every finite f32/f64 pattern into "
         "each instantiated alias equals round-to-nearest-even with overflow decided on the rounded value, per policy form; every "
@@ -86,8 +93,9 @@ CHECKS.update({
         "profile can fire for any operand of the instantiated aliases; an execution in which no check fires is the execution of the "
         "non-checking profile, so values agree.",
         TRUST + "The non-checking profile itself is not compiled by the solver front end; counterexamples are replayed natively in "
-        "both profiles. Outside: entry points / aliases not instantiated, 64/128-bit division.", KANI + " + source inventory",
-        "DESIGN.md 4 C11"),
+        "both profiles; Engine M adds the panic obligations (every assert terminator of the MIR) of the multiplication/division "
+        "kernels for every fractional-bit count and all operands. Outside: entry points / aliases not instantiated, wide_div.rs.",
+        KANI + " + MIR->SMT panic obligations + source inventory", "DESIGN.md 4 C11"),
     "C12": (
         "Bounded model checking: for I9F23 every operand (2^32) of exp, log2, sin, cos (|x|<=200), tan (clear of poles) returns without "
         "any failed check; sqrt/ln/pow on operand families (every binade +- 255 ulps, extremes) and full range in the thorough tier; "
@@ -166,6 +174,11 @@ def main():
             "add_only": True,
         },
         "engines": [
+            {"name": "mir-smt", "path": "vm/ (MIR parser, symbolic executor, obligation builders) + vk/enginem.py",
+             "serves_properties": ["C01", "C03", "C04", "C11"],
+             "kind_free_text": "rustc MIR dump of /repo's working tree (nightly, debug assertions and overflow checks on) executed "
+                               "symbolically into SMT-LIB (integers with McCormick-abstracted products, 400-bit bit-vectors), decided "
+                               "by cvc5 with z3 as cross-check; candidates re-queried exactly and replayed natively through the public API"},
             {"name": "kani-harness", "path": "hk/ (harnesses) + vk/ (driver)",
              "serves_properties": [c["property_id"] for c in checks],
              "kind_free_text": "Kani 0.68 proof harnesses over the real crate (path dependency on /repo, rebuilt "
